@@ -1002,11 +1002,33 @@ pub fn run(id: &str, mode: &str, input: &Input) -> String {
                                     let rl8 = l8.out.rl.as_ref().map(|v| levels_str(&in_line.iter().map(|s| v[off8[s.0]]).collect::<Vec<_>>()));
                                     let runs16 = l16.out.vr.as_ref().map(|v| v.1.iter().map(|r| format!("{}:{}", off8[r.start], off8[r.end])).collect::<Vec<_>>().join("/"));
                                     let runs8 = l8.out.vr.as_ref().map(|v| v.1.iter().map(|r| format!("{}:{}", r.start, r.end)).collect::<Vec<_>>().join("/"));
-                                    // reordered line, compared as scalar sequences (lossy)
-                                    let ro16 = l16.out.ro.as_ref().map(|v| {
-                                        let uu: Vec<u16> = v.0.iter().map(|x| *x as u16).collect();
-                                        hexlist(&lossy_segments(&uu).iter().map(|s| s.1).collect::<Vec<_>>())
-                                    });
+                                    // reordered line, compared character for character: the characters are the
+                                    // segments of the INPUT (an unpaired surrogate stays one character, read as
+                                    // U+FFFD, even when the copy of an LTR run puts it next to another one), in
+                                    // the order given by the crate's own runs; the flattened output must be
+                                    // exactly these characters (LTR runs verbatim, RTL runs re-encoded).
+                                    let ro16 = match (&l16.out.vr, &l16.out.ro) {
+                                        (Some((lv, runs)), Some((flat, _))) => {
+                                            let mut chars: Vec<u32> = vec![];
+                                            let mut units: Vec<u32> = vec![];
+                                            for r in runs {
+                                                let mut ss: Vec<&(usize, u32, usize)> = segs.iter().filter(|s| s.0 >= r.start && s.0 < r.end).collect();
+                                                let rtl = lv[r.start].is_rtl();
+                                                if rtl { ss.reverse(); }
+                                                for s in ss {
+                                                    chars.push(s.1);
+                                                    if rtl {
+                                                        let mut buf = [0u16; 2];
+                                                        for x in char::from_u32(s.1).unwrap().encode_utf16(&mut buf).iter() { units.push(*x as u32); }
+                                                    } else {
+                                                        for j in 0..s.2 { units.push(u[s.0 + j] as u32); }
+                                                    }
+                                                }
+                                            }
+                                            if &units == flat { Some(hexlist(&chars)) } else { Some(format!("FLATTENED-OUTPUT-DIFFERS:{}", hexlist(flat))) }
+                                        }
+                                        _ => None,
+                                    };
                                     let ro8 = l8.out.ro.as_ref().map(|v| hexlist(&v.0));
                                     // for well-formed input: exact UTF-16 encoding
                                     let wf = segs.iter().all(|s| !(s.1 == 0xFFFD && (0xD800..=0xDFFF).contains(&(u[s.0] as u32))));
